@@ -29,7 +29,7 @@ import (
 	banktypes "github.com/cosmos/cosmos-sdk/x/bank/types"
 )
 
-func init() { props["C10"] = runC10 }
+func init() { props["C10"] = func(r *Rec) { runC10(r); recFor(r, "C10") } }
 
 const (
 	kfSlashRedeem = "C10/undelegate-after-slash/redeems-more-than-pro-rata"
